@@ -1242,6 +1242,10 @@ extern "C" {
             (void)dr_check(x->next);
             s->info.logical_edge_counts[dr_dag_edge_kind_create]++;
             s->info.logical_edge_counts[dr_dag_edge_kind_create_cont]++;
+            /* the edge from the end of the created task to what follows this
+               section is accounted to the section itself, so that it is not
+               lost when the section is contracted but its parent is not */
+            s->info.logical_edge_counts[dr_dag_edge_kind_end]++;
             s->info.n_child_create_tasks++;
             /* similar accumulation for x's child task */
             (void)dr_check(c);
@@ -1304,8 +1308,6 @@ extern "C" {
           case dr_dag_node_kind_section:
             if (x->next) {
               s->info.logical_edge_counts[dr_dag_edge_kind_wait_cont]++;
-              s->info.logical_edge_counts[dr_dag_edge_kind_end] 
-                += x->info.n_child_create_tasks;
             }
             break;
           default:
